@@ -4330,6 +4330,13 @@ func (ce *callEngine) callNativeFunc(ctx context.Context, m *wasm.ModuleInstance
 			frame.pc++
 		case operationKindTailCallReturnCall:
 			f := &functions[op.U1]
+			// A cycle of tail calls neither passes a loop header nor grows the call stack,
+			// so the module exit code must be checked here to honour close-on-context-done.
+			if f.parent.ensureTermination {
+				if err := m.FailIfClosed(); err != nil {
+					panic(err)
+				}
+			}
 			ce.dropForTailCall(frame, f)
 			body, bodyLen = ce.resetPc(frame, f)
 
@@ -4351,6 +4358,11 @@ func (ce *callEngine) callNativeFunc(ctx context.Context, m *wasm.ModuleInstance
 				continue
 			}
 
+			if tf.parent.ensureTermination {
+				if err := m.FailIfClosed(); err != nil {
+					panic(err)
+				}
+			}
 			ce.dropForTailCall(frame, tf)
 			body, bodyLen = ce.resetPc(frame, tf)
 
